@@ -358,27 +358,37 @@ let c13_prim_chain data chunks eof fail scope script =
   let u = ref { u_data = data; u_chunks = ints chunks; u_eof_with_data = (eof = "1");
                 u_fail_after = (if fail = "-" then None else Some (nh fail)) } in
   let scope = nh scope in
-  let lims = ref [scope] in
-  let frames = ref [(N0, scope)] in
+  (* readers: parent id (-1 for the top), index, max, own LimitedReader counter; a reader's chain
+     is its own counter followed by its ancestors' (the counters are shared objects) *)
+  let parent = ref [| -1 |] and idx = ref [| N0 |] and mx = ref [| scope |] and lim = ref [| scope |] in
+  let cur = ref 0 in
+  let rec chain k = if k < 0 then [] else k :: chain !parent.(k) in
   let parts = ref [] in
   let stop = ref false in
+  let two64 = N.pow (n_of_int 2) (n_of_int 64) in
   List.iter (fun q ->
       if not !stop then begin
         let arg () = nh (String.sub q 1 (String.length q - 1)) in
-        match q.[0], !frames with
-        | 's', (i, mx) :: _ ->
+        match q.[0] with
+        | 's' ->
           let c = arg () in
-          if N.ltb (N.sub mx i) c then (parts := "ERR" :: !parts; stop := true)
-          else (frames := (N0, c) :: !frames; lims := c :: !lims; parts := "sub" :: !parts)
-        | 'u', _ :: rest -> frames := rest; lims := List.tl !lims; parts := "up" :: !parts
-        | 'U', (ci, _) :: (pi, pmx) :: rest ->
-          (* UpdateIndexFromScoped: dr.i += other.i (uint64) *)
-          let i' = N.modulo (N.add pi ci) (N.pow (n_of_int 2) (n_of_int 64)) in
-          frames := (i', pmx) :: rest; lims := List.tl !lims; parts := ("up" ^ hn i') :: !parts
-        | 'r', (i, mx) :: rest ->
-          (match dr_read_io_chain !u !lims i mx (arg ()) with
+          if N.ltb (N.sub !mx.(!cur) !idx.(!cur)) c then (parts := "ERR" :: !parts; stop := true)
+          else begin
+            parent := Array.append !parent [| !cur |]; idx := Array.append !idx [| N0 |];
+            mx := Array.append !mx [| c |]; lim := Array.append !lim [| c |];
+            cur := Array.length !parent - 1; parts := "sub" :: !parts
+          end
+        | 'u' -> cur := !parent.(!cur); parts := "up" :: !parts
+        | 'w' -> cur := int_of_n (arg ()); parts := "sw" :: !parts
+        | 'U' ->
+          let p = !parent.(!cur) in
+          let i' = N.modulo (N.add !idx.(p) !idx.(!cur)) two64 in
+          !idx.(p) <- i'; cur := p; parts := ("up" ^ hn i') :: !parts
+        | 'r' ->
+          let ks = chain !cur in
+          (match dr_read_io_chain !u (List.map (fun k -> !lim.(k)) ks) !idx.(!cur) !mx.(!cur) (arg ()) with
            | OK (((bs, u'), lims'), i') ->
-             u := u'; lims := lims'; frames := (i', mx) :: rest; parts := hb bs :: !parts
+             u := u'; List.iter2 (fun k l -> !lim.(k) <- l) ks lims'; !idx.(!cur) <- i'; parts := hb bs :: !parts
            | Err -> parts := "ERR" :: !parts; stop := true
            | Panic -> parts := "PANIC" :: !parts; stop := true)
         | _ -> failwith "bad script"
@@ -540,6 +550,11 @@ let dispatch set_cfg cur_h cur_zh (op : string) (args : string list) : string =
   | "bstr", [bs] -> hb (bytes_string (bytes_of_hex bs))
   | "c13p", [data; chunks; eof; fail; reqs] -> c13_prim data chunks eof fail reqs
   | "c13pc", [data; chunks; eof; fail; scope; script] -> c13_prim_chain data chunks eof fail scope script
+  | "c13u", [kind; t; data] ->
+    (* bytes taken out of the caller's stream by a successful decode = the scope *)
+    set_cfg "sha";
+    let r = c13_read kind !cur_zh t data "full" in
+    if String.length r >= 2 && String.sub r 0 2 = "OK" then hn (n_of_int (List.length (bytes_of_hex data))) else "ERR"
   | "c13r", [kind; t; data; got] -> set_cfg "sha"; c13_read kind !cur_zh t data got
   | "c13w", [kind; t; v; budget] -> set_cfg "sha"; c13_write kind !cur_zh t v budget
   | "c13wc", [kind; t; v; budget; chunk] -> set_cfg "sha"; c13_write_chunked kind !cur_zh t v budget chunk
